@@ -140,3 +140,55 @@ func c08Sparse6(L int, maxN int) {
 
 func H_c08_s6_q() { c08Sparse6(4, 8) }
 func H_c08_s6_t() { c08Sparse6(5, 16) }
+
+// c08LongHeader: the 4- and 8-byte size headers with a small declared n (non-minimal
+// headers are legal input) followed by 0..D symbolic data bytes: exercises the
+// length checks that depend on the header length.
+func c08LongHeader(D int, sparse bool) {
+	form := rt.Choice("form", 2) // 0: "~" + 3 bytes, 1: "~~" + 6 bytes
+	hl := 3
+	pre := "~"
+	if form == 1 {
+		hl = 6
+		pre = "~~"
+	}
+	// declared n: small values (non-minimal long header) and the first values that need the long form
+	ns := []int{0, 1, 2, 3, 4, 5, 63, 64}
+	n := ns[rt.Choice("n", len(ns))]
+	hb := make([]byte, hl)
+	for i := 0; i < hl; i++ {
+		hb[i] = byte(63 + (n>>uint(6*(hl-1-i)))&63)
+	}
+	hdr := string(hb)
+	if n > 5 && !sparse {
+		// graph6 needs n(n-1)/2 edge bits: with <= D data bytes this is the "too short" path
+	}
+	data := rt.String("d", rt.Choice("dlen", D+1))
+	s := pre + hdr + data
+	if sparse {
+		var g *SparseGraph
+		var err error
+		p, msg := rt.Panics(func() { g, err = Sparse6Decode(":" + s) })
+		rt.Check(!p, "Sparse6Decode panicked: "+msg)
+		if !p && err == nil && n <= 5 {
+			c08WellFormed(g, n, "Sparse6Decode result (long header)")
+		}
+		if !p && err == nil {
+			rt.Check(g.N() == n, "Sparse6Decode: wrong order (long header)")
+		}
+	} else {
+		var g *DenseGraph
+		var err error
+		p, msg := rt.Panics(func() { g, err = Graph6Decode(s) })
+		rt.Check(!p, "Graph6Decode panicked: "+msg)
+		if !p && err == nil {
+			c08WellFormed(g, n, "Graph6Decode result (long header)")
+		}
+	}
+	rt.Reach("end")
+}
+
+func H_c08_g6long_q() { c08LongHeader(2, false) }
+func H_c08_s6long_q() { c08LongHeader(1, true) }
+func H_c08_g6long_t() { c08LongHeader(3, false) }
+func H_c08_s6long_t() { c08LongHeader(2, true) }
